@@ -19,6 +19,12 @@ static void one(const char *s)
     /* strtol */
     char *e1, *e2; errno = 0; long a = strtol(s, &e1, 10); int ea = errno; errno = 0; long b = m_strtol10(s, &e2); int eb = errno;
     if (a != b || e1 != e2 || ea != eb) { n_bad++; printf("strtol mismatch on '%s': %ld/%ld end %ld/%ld errno %d/%d\n", s, a, b, (long)(e1 - s), (long)(e2 - s), ea, eb); }
+    /* strtoul */
+    { char *f1, *f2; errno = 0; unsigned long ua = strtoul(s, &f1, 10); int ua_e = errno; errno = 0; unsigned long ub = m_strtoul10(s, &f2); int ub_e = errno;
+      if (ua != ub || f1 != f2 || ua_e != ub_e) { n_bad++; printf("strtoul mismatch on '%s': %lu/%lu errno %d/%d\n", s, ua, ub, ua_e, ub_e); } }
+    /* %ld / %zd / %lu of the value just parsed (all 64-bit magnitudes) */
+    { char p1[80], p2[80]; int w1 = snprintf(p1, sizeof(p1), "%ld|%zd|%lu", a, (ssize_t)a, (unsigned long)a), w2 = m_snprintf(p2, sizeof(p2), "%ld|%zd|%lu", a, (ssize_t)a, (unsigned long)a);
+      if (w1 != w2 || strcmp(p1, p2)) { n_bad++; printf("snprintf 64-bit mismatch: %d %d %s / %s\n", w1, w2, p1, p2); } }
     /* inet_pton4 */
     struct in_addr x = {0}, y = {0};
     int r1 = inet_pton(AF_INET, s, &x), r2 = m_inet_pton4(s, &y);
